@@ -2,19 +2,21 @@
 """Applies every kept seeded change (seeded/*/patch.diff) to /repo in turn, runs the quick check of
 its property, expects exit 1 (VIOLATION), restores /repo. Writes /verif/seeded_report.json."""
 import glob, json, os, subprocess, sys
+REPO = os.environ.get("VERIF_REPO", "/repo")
+HOME_V = os.environ.get("VERIF_HOME", "/verif")
 rep = []
 allok = True
 for d in sorted(glob.glob("/verif/seeded/*/")):
     meta = json.load(open(d + "meta.json"))
     prop = meta["property"]
-    if subprocess.run(["git", "-C", "/repo", "diff", "--quiet"]).returncode != 0:
-        print("/repo dirty"); sys.exit(2)
-    a = subprocess.run(["git", "-C", "/repo", "apply", d + "patch.diff"], capture_output=True, text=True)
+    if subprocess.run(["git", "-C", REPO, "diff", "--quiet"]).returncode != 0:
+        print(REPO + " dirty"); sys.exit(2)
+    a = subprocess.run(["git", "-C", REPO, "apply", d + "patch.diff"], capture_output=True, text=True)
     if a.returncode != 0:
         rep.append({"seeded": os.path.basename(d[:-1]), "result": "patch does not apply", "detail": a.stderr[-200:]}); allok = False
         continue
-    out = subprocess.run(["./check", prop, "--tier", "quick", "--no-evidence"], cwd="/verif", capture_output=True, text=True)
-    subprocess.run(["git", "-C", "/repo", "checkout", "--", "."])
+    out = subprocess.run(["./check", prop, "--tier", "quick", "--no-evidence"], cwd=HOME_V, capture_output=True, text=True)
+    subprocess.run(["git", "-C", REPO, "checkout", "--", "."])
     clauses = []
     for line in out.stdout.splitlines():
         if line.startswith("VIOLATION"):
@@ -27,6 +29,6 @@ for d in sorted(glob.glob("/verif/seeded/*/")):
     allok &= ok
     rep.append({"seeded": os.path.basename(d[:-1]), "property": prop, "check_exit": out.returncode, "clauses": clauses, "detected": ok})
     print(os.path.basename(d[:-1]), "exit", out.returncode, clauses, flush=True)
-subprocess.run(["cargo", "build", "--release", "--offline", "-q"], cwd="/verif/sim", capture_output=True)
+subprocess.run(["cargo", "build", "--release", "--offline", "-q"], cwd=HOME_V + "/sim", capture_output=True)
 json.dump(rep, open("/verif/seeded_report.json", "w"), indent=1)
 sys.exit(0 if allok else 1)
